@@ -583,7 +583,7 @@ pub fn run(tier: Tier, totals: &mut Totals) {
         &BfsOpts {
             max_depth: 64,
             max_states: tier.pick(2_000_000, 20_000_000),
-            wall: Duration::from_secs(tier.pick(45, 1200)),
+            wall: Duration::from_secs(tier.pick(55, 2400)),
             threads: 16,
         },
     );
